@@ -28,14 +28,17 @@ def run(ctx):
         # covering subset: every descriptor combination, every overlay, every way of ending at least several times
         stride = 7
         vecs = [v for i, v in enumerate(vecs) if (i + ctx.seed) % stride == 0]
-    nsh = 16
+    nsh = 32 if ctx.tier == "thorough" else 16
     scratch = os.path.join(ctx.work, "spawn")
     os.makedirs(scratch, exist_ok=True)
     files = []
+    # shards are pure in the launch mode: even shards start the parent as a script, odd ones with -m
+    by_launch = {"script": [v for v in vecs if v[8] == "script"], "module": [v for v in vecs if v[8] == "module"]}
     for k in range(nsh):
         f = os.path.join(ctx.work, "sp_in_%d.jsonl" % k)
+        mine = by_launch["script" if k % 2 == 0 else "module"][k // 2::nsh // 2]
         with open(f, "w") as fh:
-            for v in vecs[k::nsh]:
+            for v in mine:
                 fh.write(json.dumps(v) + "\n")
         files.append(f)
 
@@ -45,7 +48,8 @@ def run(ctx):
         os.makedirs(sc, exist_ok=True)
         counter = os.path.join(sc, "main_counter")
         open(counter, "w").close()
-        rc, out = runner.run_child([runner.PY, PARENT, files[k], of, sc], cwd=runner.ROOT, timeout=1700,
+        launch = [PARENT] if k % 2 == 0 else ["-m", "engine.real.spawn_parent"]
+        rc, out = runner.run_child([runner.PY] + launch + [files[k], of, sc], cwd=runner.ROOT, timeout=7200,
                                    env={"VERIF_MAIN_COUNTER": counter}, out_path=os.path.join(ctx.work, "sp_log_%d.txt" % k))
         if not os.path.exists(of):
             raise runner.Machinery("spawn_parent failed rc=%s: %s" % (rc, out[-1500:]))
@@ -59,13 +63,13 @@ def run(ctx):
         if m["why"].startswith("harness:"):
             raise runner.Machinery("spawn_parent: %s on %s" % (m["why"], m["vector"]))
     for v in vecs:
-        ctx.case(key=json.dumps(v[1:5]), nontrivial=any(s != "absent" for s in v[1].values()) or any(s != "absent" for s in v[2].values()))
+        ctx.case(key=json.dumps(v[1:5] + [v[8]]), nontrivial=any(s != "absent" for s in v[1].values()) or any(s != "absent" for s in v[2].values()))
     ctx.traces_validated += len(vecs) - len(bad)
     ctx.extra["spawn_configurations_total"] = total
     ctx.extra["spawn_configurations_executed"] = len(vecs)
     ctx.exhaustive = (len(vecs) == total)
     v = vecs[len(vecs) // 2]
-    ctx.sample(dict(parent_fds=v[1], env_overlay=v[2], end=v[3], method=v[4], expected_child_env=v[5], expected_exitcode=v[6]))
+    ctx.sample(dict(parent_fds=v[1], env_overlay=v[2], end=v[3], method=v[4], launch=v[8], expected_child_env=v[5], expected_exitcode=v[6]))
     seen = {}
     for m in bad:
         k = m["why"][:40]
